@@ -62,6 +62,7 @@ type Ctx struct {
 	initPoisoned          map[*MapV]bool
 	syllableConvertFolded bool
 	playPipelineChecked   bool
+	chordPipeFold         *foldVerdict
 	descKeyFold           *foldVerdict
 	descFold              *foldVerdict
 	readArgsFold          *foldVerdict
